@@ -53,7 +53,9 @@ abbrev Op (VH : Type) := Key × RW VH
 def childBits (c : Nat) : List Bool := (List.range 6).map (fun i => c.testBit (5 - i))
 
 /-- big-endian value of a bit string -/
-def bitsNat (l : List Bool) : Nat := l.foldl (fun a b => 2 * a + b.toNat) 0
+def bitsNat : List Bool → Nat
+  | [] => 0
+  | b :: rest => b.toNat * 2 ^ rest.length + bitsNat rest
 
 /-- the root child (first six bits) a key or position falls under -/
 def childOf (k : List Bool) : Nat := bitsNat (k.take 6)
